@@ -3,6 +3,7 @@ import IndicatifModel.Proofs.MultiSpec
 import Batteries.Data.List.Perm
 import IndicatifModel.Proofs.Rows
 import IndicatifModel.Proofs.GenBridgeMulti
+import IndicatifModel.Proofs.RowsShown
 /-!
 # C02 — ordering level: slot bookkeeping of `MultiState` for every history of `insert*`/`remove`
 
@@ -474,5 +475,59 @@ example :
       .bar 1 (.finish .andLeave)]
     CleanRunF {} ops ∧ (run {} ops).ordering = [2, 1] ∧ (run {} ops).stale = false ∧ (run {} ops).n = 2 := by
   refine ⟨⟨trivial, trivial, trivial, trivial, trivial, trivial, trivial, trivial, trivial⟩, ?_, ?_, ?_⟩ <;> decide +kernel
+
+/-! ### Concurrent updates: every frame shows states the bars really had, never older ones than before
+
+Calls from several threads are serialised by the bar and multi locks (C08), so a concurrent execution is one of the serial
+histories below; a painted frame shows each member's stored lines (`C02_painted_frame_is_members_in_order`). -/
+
+/-- one step, any operation: every bar's stored lines are kept, or become the rendering of the state the bar has now -/
+theorem C02_stored_lines_kept_or_current (w : RW) (op : MOp) (k : Nat) :
+    ((step w op).barAt k).lines = (w.barAt k).lines ∨ ((step w op).barAt k).lines = barRows ((step w op).barAt k) :=
+  step_kr w op k
+
+/-- **every history**: what bar `k`'s slot holds after `ops` — and what every later painted frame shows for it until its
+next draw request — is the rendering of the state `k` had right after step number `stamp` (its own lines of the initial
+world if no step changed them); `stamp` is a step of the history, so the state is one the bar really had -/
+theorem C02_frames_show_states_the_bars_had (w0 : RW) (ops : List MOp) (k : Nat) :
+    stamp k w0 ops 1 0 ≤ ops.length ∧
+    ((run w0 ops).barAt k).lines =
+      (if stamp k w0 ops 1 0 = 0 then (w0.barAt k).lines else barRows ((run w0 (ops.take (stamp k w0 ops 1 0))).barAt k)) := by
+  have h1 := stamp_ge k ops w0 1 0 (by omega)
+  have h2 := stamp_spec k w0 ops [] 0 (Nat.le_refl _) (by simp [run])
+  simp only [List.nil_append, List.length_nil, Nat.zero_add, run, List.foldl_nil] at h2
+  exact ⟨by omega, h2⟩
+
+/-- **never older than the one shown before**: the step whose state is shown only moves forward as the history goes on -/
+theorem C02_shown_state_never_older (w0 : RW) (ops more : List MOp) (k : Nat) :
+    stamp k w0 ops 1 0 ≤ stamp k w0 (ops ++ more) 1 0 := by
+  rw [stamp_append]
+  exact (stamp_ge k more (run w0 ops) (1 + ops.length) _ (by have := stamp_ge k ops w0 1 0 (by omega); omega)).1
+
+/-- **the last frame shows the final states**: a finishing call of a member refreshes its slot with the rendering of the
+final state and paints (`C04_member_finish_paints_final`); here: after `finish*` the slot holds the current rendering -/
+theorem C02_finish_refreshes_slot (w : RW) (k : Nat) (f : Finish) (hk : k < w.bars.length) (hm : (w.barAt k).member = true) :
+    ((finishWith w k (w.barAt k).b f).barAt k).lines = barRows ((finishWith w k (w.barAt k).b f).barAt k) := by
+  unfold finishWith
+  obtain ⟨hb, hl⟩ := barDraw_lines (setBar w k (finalBar (w.barAt k).b f)) k true [] k
+  have hmem : ((setBar w k (finalBar (w.barAt k).b f)).barAt k).member = true := by
+    rw [(setBar_barAt w k _ k).2.2.1]; exact hm
+  rcases hl with h | ⟨_, h⟩
+  · -- the draw request of a member always stores: the "kept" alternative means the stored lines already were the rendering
+    unfold barDraw at h ⊢
+    simp only [hmem, Bool.not_true, Bool.false_eq_true, if_false] at h ⊢
+    have hd := draw_same (store (setBar w k (finalBar (w.barAt k).b f)) k (barRows ((setBar w k (finalBar (w.barAt k).b f)).barAt k)) [])
+      (true || ((setBar w k (finalBar (w.barAt k).b f)).barAt k).b.finished) [] k
+    have e : (store (setBar w k (finalBar (w.barAt k).b f)) k (barRows ((setBar w k (finalBar (w.barAt k).b f)).barAt k)) []).barAt k
+        = { (setBar w k (finalBar (w.barAt k).b f)).barAt k with lines := barRows ((setBar w k (finalBar (w.barAt k).b f)).barAt k) } := by
+      have := barAt_modify (setBar w k (finalBar (w.barAt k).b f)).bars k k
+        (fun rb => { rb with lines := barRows ((setBar w k (finalBar (w.barAt k).b f)).barAt k) })
+      have hk' : k < (setBar w k (finalBar (w.barAt k).b f)).bars.length := by simp [setBar]; exact hk
+      rw [if_pos ⟨rfl, hk'⟩] at this
+      exact this
+    rw [hd.1, e]
+    apply barRows_congr
+    rw [hd.2, e]
+  · rw [h]; exact barRows_congr hb.symm
 
 end IndicatifModel.Rows
